@@ -160,3 +160,24 @@ Definition is_incomplete2 {A} (r : result A err2) : bool :=
   match r with Ok _ => false | Err e => err2_is_incomplete e end.
 (* default method: is_complete = !is_incomplete *)
 Definition is_complete2 {A} (r : result A err2) : bool := negb (is_incomplete2 r).
+
+(* ---- Display for Header: "{:?} {:#X} {:#X} ({} bytes)" of PROTOCOL_PREFIX, version | command,
+   protocol | address_family, length() ---- *)
+Definition hexd_upper (d : N) : N := if d <? 10 then 48 + d else 55 + d.
+(* {:#X} of a u8: "0x" and upper-case hexadecimal without padding *)
+Definition fmt_hex_u8 (b : N) : bytes :=
+  [48; 120] ++ (if b <? 16 then [hexd_upper b] else [hexd_upper (b / 16); hexd_upper (b mod 16)]).
+(* Display for usize: decimal *)
+Fixpoint fmt_dec_fuel (fuel : nat) (n : N) (acc : bytes) : bytes :=
+  match fuel with
+  | O => acc
+  | S f => let acc' := (48 + n mod 10) :: acc in if n <? 10 then acc' else fmt_dec_fuel f (n / 10) acc'
+  end.
+Definition fmt_usize (n : N) : bytes := fmt_dec_fuel 20 n [].
+(* {:?} of the signature slice *)
+Definition SIG_DEBUG : bytes :=
+  [91;49;51;44;32;49;48;44;32;49;51;44;32;49;48;44;32;48;44;32;49;51;44;32;49;48;44;32;56;49;44;32;56;53;44;32;55;51;44;32;56;52;44;32;49;48;93].
+Definition h_display (h : header2) : bytes :=
+  SIG_DEBUG ++ [32] ++ fmt_hex_u8 (version_or_command (hcommand h)) ++ [32]
+  ++ fmt_hex_u8 (protocol_or_family (hprotocol h) (h_address_family h)) ++ [32; 40]
+  ++ fmt_usize (h_length h) ++ [32; 98; 121; 116; 101; 115; 41].
